@@ -159,8 +159,41 @@ Definition server_check (input observed : sx) : verdict :=
   | _ => VBad
   end.
 
+(* relay case: input = (5 codec n seed)
+   observed = (acceptedB receivedB acceptedC receivedC (eofB eofC panics inconclusive)),
+   packet = (cmd seq type node flag nrefers refersum bodylen bodycrc).
+   "delivers every accepted packet": the frame the peer decodes equals the accepted packet in every
+   field the codec carries (V1 has no node and no refers on the wire) *)
+Definition project_v1 (p : list Z) : list Z :=
+  match p with
+  | [cmd; seq; typ; _node; flag; _nref; _refsum; blen; bcrc] => [cmd; seq; typ; 0; flag; 0; 0; blen; bcrc]
+  | _ => p
+  end.
+
+Definition relay_leg_ok (codecv : Z) (accepted received : sx) : bool :=
+  match sx_listof sx_ints accepted, sx_listof sx_ints received with
+  | Some a, Some r =>
+      list_eqb (list_eqb Z.eqb) (if codecv =? 1 then map project_v1 a else a) r
+  | _, _ => false
+  end.
+
+Definition relay_check (input observed : sx) : verdict :=
+  match input, observed with
+  | SList (SInt _ :: SInt codecv :: _), SList [accB; recB; accC; recC; flags] =>
+      match sx_ints flags with
+      | Some [eofB; eofC; panics; inconcl] =>
+          if (inconcl =? 0) && (panics =? 0) then
+            vjoin (check_that ((eofB =? 1) && (eofC =? 1)) (VPropFail 4))
+                  (check_that (relay_leg_ok codecv accB recB && relay_leg_ok codecv accC recC) (VPropFail 1))
+          else VOk
+      | _ => VBad
+      end
+  | _, _ => VBad
+  end.
+
 Definition check (c : sx) : verdict :=
   match c with
+  | SList [SList (SInt 5 :: _) as input; observed] => relay_check input observed
   | SList [SList (SInt 4 :: _) as input; observed] => server_check input observed
   | SList [input; observed] =>
       match decode_scen input, decode_obs observed with
